@@ -23,6 +23,8 @@ OBLIGATIONS = [
     (P + "http_folded_header_roundtrip", "HTTP obs-fold (CRLF 1*(SP/HTAB)) over the generated parser: a header continued on lines starting with SP or HTAB is reported with the unfolded value (CRLFs dropped, the blank/tab kept), look-ahead byte pushed back"),
     (P + "http_folded_lines_roundtrip", "header section with any number of SP/HTAB folds in any number of headers: each header reaches the per-header code with its unfolded value, in order; then process_request; body unread"),
     (P + "http_header_lines_roundtrip", "HTTP (generated parser): plain header lines reach the per-header code unchanged, one by one, in order; then process_request; body left unread (partial: no folded/quoted headers, no inverse of header canonicalisation / percent-decoding)"),
+    (P + "get_after_adds", "string_map (open addressing, growth at total*2>=size, probe start/step regenerated from private/string_map.h): for every hash function and every sequence of adds, get(name) = the abstract environment's answer; breaks when get does not probe the way add inserted"),
+    (P + "get_after_adds_plain", "string_map: a name never added is not found; with pairwise different names every variable is found by name with the value it was added with (any hash, any number of growths)"),
     (P + "scgi_roundtrip", "SCGI round trip: WF request encoded by the peer, any segmentation -> exactly the peer's environment (pairs, order) and body stream reach the request layer"),
 ]
 OBLIGATIONS_FILE = os.path.join(HERE, "c01_obligations.json")
